@@ -54,6 +54,9 @@ CHECKS = {
  "C11": ("exploration", "share-sum / crisis-invariant monitor after every operation, exact share-movement check, reward equality against a twin branch using plain withdraw, exit probe with real unbonding",
          "Held on the histories observed: generated staking-precompile histories among EOAs and contract accounts with reward-producing blocks and validator slashing; sums of delegation shares equal validator shares, all registered invariants hold, transfers move exactly the shares, rewards equal the twin's, everybody can withdraw and fully undelegate and the funds arrive.",
          "Real inflation is on in this fixture so that rewards are non-zero.", "4 C11"),
+ "C14": ("exploration", "twin-chain differential (migrated vs never migrated, same seed), portfolio equality, raw residue scan of staking/distribution stores, refusal matrix over proposal life-cycle points",
+         "Held on the cases observed: seeded portfolios migrate completely (balances, delegations with rewards, unbonding and redelegation entries and their queue entries), the source is empty, totals and invariants unchanged, no record or index still carries the source address, later withdraw / undelegate / maturation pay the target exactly what the never-migrated twin pays the source; migration is refused for bad signatures, reused addresses, validator operators, targets with staking records and for proposers / depositors / voters of proposals at four points of their life.",
+         "The source account's secp256k1 public key is written at set-up; the delegator-withdraw-address record is exempt from the residue scan.", "4 C14"),
 }
 NOT_YET = {}
 def load_props():
